@@ -812,9 +812,9 @@ package analysis
 //@   requires s != nil && pi != nil && idxMaps(s) && (forall mth in dom(s.operations) :: s.operations[mth] != nil)
 //@   modifies heaps INDEX, heap spec.Parameter
 //@   ensures idxMaps(s) && s.spec == old(s.spec) && s.patterns.parameters == old(s.patterns.parameters) && s.patterns.headers == old(s.patterns.headers) && s.patterns.schemas == old(s.patterns.schemas) && s.patterns.allPatterns == old(s.patterns.allPatterns)
-//@   ensures forall i in 0..len(pi.Parameters) :: pi.Parameters[i].Pattern != "" ==> pkey(slashpath.Join("/paths", jsonpointer.Escape(path)), i) in dom(s.patterns.parameters) && pkey(slashpath.Join("/paths", jsonpointer.Escape(path)), i) in dom(s.patterns.allPatterns)
+//@   ensures forall i in 0..len(pi.Parameters) :: pi.Parameters[i].Pattern != "" ==> ("#" + slashpath.Join("/paths", jsonpointer.Escape(path), "parameters", strconv.Itoa(i))) in dom(s.patterns.parameters) && ("#" + slashpath.Join("/paths", jsonpointer.Escape(path), "parameters", strconv.Itoa(i))) in dom(s.patterns.allPatterns)
 //@   loop 1: invariant s != nil && idxMaps(s) && s.spec == old(s.spec) && s.patterns.parameters == old(s.patterns.parameters) && s.patterns.headers == old(s.patterns.headers) && s.patterns.schemas == old(s.patterns.schemas) && s.patterns.allPatterns == old(s.patterns.allPatterns)
-//@   loop 1: invariant forall j in 0..idx :: op.Parameters[j].Pattern != "" ==> pkey(slashpath.Join("/paths", jsonpointer.Escape(path)), j) in dom(s.patterns.parameters) && pkey(slashpath.Join("/paths", jsonpointer.Escape(path)), j) in dom(s.patterns.allPatterns)
+//@   loop 1: invariant forall j in 0..idx :: op.Parameters[j].Pattern != "" ==> ("#" + slashpath.Join("/paths", jsonpointer.Escape(path), "parameters", strconv.Itoa(j))) in dom(s.patterns.parameters) && ("#" + slashpath.Join("/paths", jsonpointer.Escape(path), "parameters", strconv.Itoa(j))) in dom(s.patterns.allPatterns)
 
 
 // the items chain under an owner: every (key, Enum) pair it declares
@@ -903,6 +903,6 @@ package analysis
 //@   requires s != nil && pi != nil && idxMaps(s) && (forall mth in dom(s.operations) :: s.operations[mth] != nil)
 //@   modifies heaps INDEX, heap spec.Parameter
 //@   ensures idxMaps(s) && s.spec == old(s.spec) && s.enums.parameters == old(s.enums.parameters) && s.enums.headers == old(s.enums.headers) && s.enums.schemas == old(s.enums.schemas) && s.enums.allEnums == old(s.enums.allEnums)
-//@   ensures forall i in 0..len(pi.Parameters) :: len(pi.Parameters[i].Enum) > 0 ==> pkey(slashpath.Join("/paths", jsonpointer.Escape(path)), i) in dom(s.enums.parameters) && pkey(slashpath.Join("/paths", jsonpointer.Escape(path)), i) in dom(s.enums.allEnums)
+//@   ensures forall i in 0..len(pi.Parameters) :: len(pi.Parameters[i].Enum) > 0 ==> ("#" + slashpath.Join("/paths", jsonpointer.Escape(path), "parameters", strconv.Itoa(i))) in dom(s.enums.parameters) && ("#" + slashpath.Join("/paths", jsonpointer.Escape(path), "parameters", strconv.Itoa(i))) in dom(s.enums.allEnums)
 //@   loop 1: invariant s != nil && idxMaps(s) && s.spec == old(s.spec) && s.enums.parameters == old(s.enums.parameters) && s.enums.headers == old(s.enums.headers) && s.enums.schemas == old(s.enums.schemas) && s.enums.allEnums == old(s.enums.allEnums)
-//@   loop 1: invariant forall j in 0..idx :: len(op.Parameters[j].Enum) > 0 ==> pkey(slashpath.Join("/paths", jsonpointer.Escape(path)), j) in dom(s.enums.parameters) && pkey(slashpath.Join("/paths", jsonpointer.Escape(path)), j) in dom(s.enums.allEnums)
+//@   loop 1: invariant forall j in 0..idx :: len(op.Parameters[j].Enum) > 0 ==> ("#" + slashpath.Join("/paths", jsonpointer.Escape(path), "parameters", strconv.Itoa(j))) in dom(s.enums.parameters) && ("#" + slashpath.Join("/paths", jsonpointer.Escape(path), "parameters", strconv.Itoa(j))) in dom(s.enums.allEnums)
